@@ -145,6 +145,28 @@ def _registry():
     return ureg, dict(ell=ell, phi=phi, iota=iota, ell2=ell2, phi2=phi2, iota2=iota2)
 
 
+def new_solution(cls, device, field_units="FIELD", current_units="CUR", path="/cwd/s.h5"):
+    """a Solution object for a harness: the REAL constructor runs (so every attribute it initialises exists, whatever helpers / caches the class
+    keeps), with the data loading switched off; falls back to __new__ when the constructor cannot run on the stand-in device"""
+    class _Quiet(cls):
+        def load_tdgl_data(self, *a, **k):
+            pass
+    if not hasattr(device, "copy"):
+        device.copy = lambda *a, **k: device
+    if not hasattr(device, "mesh"):
+        device.mesh = None
+    opts = type("Opts", (), {"field_units": field_units, "current_units": current_units})()
+    try:
+        s = _Quiet(device=device, options=opts, path=path, applied_vector_potential=None, terminal_currents=None, disorder_epsilon=None, total_seconds=0.0)
+        s.__class__ = cls
+        s.device = device
+    except Exception:
+        s = cls.__new__(cls)
+        s.device = device
+        s._field_units, s._current_units = field_units, current_units
+    return s
+
+
 def _si(q, *idx):
     """SI value of an element of a quantity-valued array / scalar"""
     m = q.mag
@@ -205,14 +227,12 @@ def run_vector_potential(mutate=None, prefixes=("C20.", "C08.")):
             pass
         S2.times = times
         S2.solve_step = step
-        s = S2.__new__(S2)
         dev = type("Dev", (), {})()
         dev.ureg, dev.points, dev.length_units = ureg, pts, "LEN"
         dev.mesh = type("M", (), {"areas": areas})()
         dev.coherence_length = pintmodel.Q(xi, pintmodel.LENGTH, ell)
         dev.layer = type("Lay", (), {"z0": z0})()
-        s.device = dev
-        s._field_units, s._current_units = "FIELD", "CUR"
+        s = new_solution(S2, dev, "FIELD", "CUR")
         # the stored sheet current densities may be expressed in ANY current / length units (scale factor kappa)
         kdims = tuple(a - b for a, b in zip(pintmodel.CURRENT, pintmodel.LENGTH))
         kappa = U["iota2"] / U["ell2"]
@@ -271,6 +291,18 @@ def run_vector_potential(mutate=None, prefixes=("C20.", "C08.")):
         bare = s.vector_potential_at_position(pos, zs=zs, units=out_units, with_units=False)
         check("C20.vector_potential.without_units_returns_the_magnitudes", z3.BoolVal(isinstance(bare, SymArray)) if not isinstance(bare, SymArray)
               else sym.eq(bare.at(i, kk), tot.mag.at(i, kk)))
+        # history: the SAME solution object after its sheet currents changed (another frame loaded, currents reassigned): the potential is that of the
+        # currents the solution holds NOW, not of those it held at an earlier call
+        Ks2, Kn2 = SymArray.input("Ks_num_later", (N, 2)), SymArray.input("Kn_num_later", (N, 2))
+        s.supercurrent_density = pintmodel.Q(Ks2, kdims, kappa)
+        s.normal_current_density = pintmodel.Q(Kn2, kdims, kappa)
+        if hasattr(s, "_vorticity"):
+            s._vorticity = None           # what load_tdgl_data resets when another frame is loaded
+        later = s.vector_potential_at_position(pos, zs=zs, units=out_units, return_sum=False)
+        if isinstance(later, dict):
+            for nm, K in (("supercurrent_density", Ks2), ("normal_current_density", Kn2)):
+                if isinstance(later.get(nm), pintmodel.Q):
+                    gsum.value_is_sum(f"C20.vector_potential.follows_the_currents_the_solution_holds_now[{nm}]", _si(later[nm], i, k), N, spec(K), pre=pre)
     obls, n = explore(body)
     return dict(obls=obls, paths=n, sources=[L.info()], consistent=sym.consistent())
 
